@@ -4,6 +4,7 @@ import LopdfModel.Model.ExtractText
 import LopdfModel.Thm.C04
 import LopdfModel.Lemmas.C09Ops
 import LopdfModel.Thm.C16
+import LopdfModel.Thm.C04CMap
 import LopdfModel.Gen.Tables
 /-
   C13 — read-only queries are total on arbitrary object graphs: property theorems
@@ -769,19 +770,210 @@ theorem getPageContent_filters_ok (ext : Ext) (os : Objects) (pid : ObjId) :
     ∃ b, getPageContent (decompOf ext) os pid = .ok b :=
   getPageContent_ok _ (fun _ _ _ => decompressedContent_no_panic _ _ _) os pid
 
+theorem getPlainContent_no_panic (ext : Ext) (st : Strm) (s : String) : getPlainContent ext st ≠ .panic s := by
+  unfold getPlainContent
+  split
+  · exact decompressedContent_no_panic _ _ _
+  · simp
+
+/-- a font encoding is *safe* when its one-byte table is one of the regenerated tables, or its CMap
+was built by `from_sections` -/
+def SafeFontEnc : FontEnc → Prop
+  | .std e => SafeEnc e
+  | .cmap m => ∀ c l, (CMap.get m c l).isPanic = false
+
+theorem cmapDecode_no_panic (m : CMap.UMap) (hg : ∀ c l, (CMap.get m c l).isPanic = false) (bs : Bytes) (s : String) :
+    cmapDecode m bs ≠ .panic s := by
+  unfold cmapDecode CMap.bytesToUnits
+  have := CMap.segLoop_no_panic m hg (bs.map UInt8.toNat) (0, 0)
+  cases hr : CMap.segLoop m (0, 0) (bs.map UInt8.toNat) with
+  | ok v => simp [Outcome.map]
+  | err e => simp [Outcome.map]
+  | panic s' => rw [hr] at this; simp [Outcome.isPanic] at this
+
+theorem FontEnc.decode_no_panic (e : FontEnc) (he : SafeFontEnc e) (bs : Bytes) (s : String) : e.decode bs ≠ .panic s := by
+  cases e with
+  | std e => exact decodeText_no_panic e he bs s
+  | cmap m => exact cmapDecode_no_panic m he bs s
+
+/-- **`get_font_encoding` never panics and only returns safe encodings** — for every document, font
+dictionary, ToUnicode stream content (any bytes) and behaviour of flate2 / weezl -/
+theorem fontEnc_safe (ext : Ext) (os : Objects) (font : Dict) :
+    (∀ s, fontEnc ext os font ≠ .panic s) ∧ ∀ e, fontEnc ext os font = .ok e → SafeFontEnc e := by
+  have hk := font_tables_known
+  simp only [Bool.and_eq_true, List.all_eq_true, List.contains_iff_mem] at hk
+  have hcm : ∀ d c, (∀ s, cmapOfStream ext d c ≠ .panic s) ∧ ∀ e, cmapOfStream ext d c = .ok e → SafeFontEnc e := by
+    intro d c
+    unfold cmapOfStream
+    cases hp : getPlainContent ext ⟨d, c⟩ with
+    | err e => simp
+    | panic s' => exact absurd hp (getPlainContent_no_panic _ _ _)
+    | ok text =>
+      simp only []
+      cases hm : (CMap.parseCMap text).bind CMap.fromSections with
+      | none => simp
+      | some m =>
+        refine ⟨by simp, ?_⟩
+        intro e he
+        simp at he; subst he
+        cases hps : CMap.parseCMap text with
+        | none => rw [hps] at hm; simp at hm
+        | some ss =>
+          rw [hps] at hm; simp only [Option.bind_some] at hm
+          exact CMap.cmap_get_never_panics ss m hm
+  unfold fontEnc
+  split
+  · simp
+  · split
+    · rename_i n _
+      split
+      · rename_i t hl
+        refine ⟨by simp, ?_⟩
+        intro e he; simp at he; subst he
+        intro t' ht'; cases ht'
+        exact hk.1 (_, t) (lookupName_mem _ _ _ hl)
+      · split
+        · split
+          · exact hcm _ _
+          · simp
+        · refine ⟨by simp, ?_⟩
+          intro e he; simp at he; subst he
+          intro t' ht'; cases ht'
+    · split
+      · exact hcm _ _
+      · refine ⟨by simp, ?_⟩
+        intro e he; simp at he; subst he
+        intro t' ht'; cases ht'
+        exact hk.2
+
+theorem fontEncs_safe (ext : Ext) (os : Objects) : ∀ (fonts : List (Bytes × Dict)),
+    (∀ s, fontEncs ext os fonts ≠ .panic s) ∧
+    ∀ encs, fontEncs ext os fonts = .ok encs → ∀ p ∈ encs, SafeFontEnc p.2 := by
+  intro fonts
+  induction fonts with
+  | nil => refine ⟨by simp [fontEncs], ?_⟩; intro encs h; simp [fontEncs] at h; subst h; simp
+  | cons p rest ih =>
+    obtain ⟨n, f⟩ := p
+    obtain ⟨h1, h2⟩ := fontEnc_safe ext os f
+    obtain ⟨i1, i2⟩ := ih
+    unfold fontEncs
+    cases hf : fontEnc ext os f with
+    | panic s' => exact absurd hf (h1 s')
+    | err e =>
+      cases hr : fontEncs ext os rest with
+      | panic s' => exact absurd hr (i1 s')
+      | err e' => simp
+      | ok es => simp
+    | ok e =>
+      cases hr : fontEncs ext os rest with
+      | panic s' => exact absurd hr (i1 s')
+      | err e' => simp
+      | ok es =>
+        refine ⟨by simp, ?_⟩
+        intro encs he; simp at he; subst he
+        intro q hq
+        rcases List.mem_cons.mp hq with rfl | hq
+        · exact h2 e hf
+        · exact i2 es hr q hq
+
+mutual
+theorem collectObjF_no_panic (e : FontEnc) (he : SafeFontEnc e) (site : String) :
+    ∀ (o : Obj) (text : UStr), collectObjF e text o ≠ .panic site
+  | .str bs f, text => by
+    have := FontEnc.decode_no_panic e he bs
+    unfold collectObjF
+    cases h : e.decode bs with
+    | ok v => simp
+    | err x => simp
+    | panic x => exact absurd h (this x)
+  | .arr items, text => by
+    have := collectListF_no_panic e he site items text
+    unfold collectObjF
+    cases h : collectListF e text items with
+    | ok v => simp
+    | err x => simp
+    | panic x => simp; intro hx; subst hx; exact this h
+  | .int i, text => by unfold collectObjF; simp
+  | .null, text => by unfold collectObjF; simp
+  | .bool _, text => by unfold collectObjF; simp
+  | .real _, text => by unfold collectObjF; simp
+  | .name _, text => by unfold collectObjF; simp
+  | .dict _, text => by unfold collectObjF; simp
+  | .stream _ _, text => by unfold collectObjF; simp
+  | .ref _ _, text => by unfold collectObjF; simp
+theorem collectListF_no_panic (e : FontEnc) (he : SafeFontEnc e) (site : String) :
+    ∀ (os : List Obj) (text : UStr), collectListF e text os ≠ .panic site
+  | [], text => by unfold collectListF; simp
+  | o :: os, text => by
+    have h1 := collectObjF_no_panic e he site o text
+    unfold collectListF
+    cases h : collectObjF e text o with
+    | ok t => exact collectListF_no_panic e he site os t
+    | err x => simp
+    | panic x => simp; intro hx; subst hx; exact h1 h
+end
+
+theorem lookupFontEnc_mem : ∀ (encs : List (Bytes × FontEnc)) (n : Bytes) (e : FontEnc),
+    lookupFontEnc n encs = some e → ∃ k, (k, e) ∈ encs
+  | [], _, _, h => by simp [lookupFontEnc] at h
+  | (k, e') :: rest, n, e, h => by
+    simp only [lookupFontEnc] at h
+    split at h
+    · simp at h; subst h; exact ⟨k, List.mem_cons_self⟩
+    · obtain ⟨k', hk'⟩ := lookupFontEnc_mem rest n e h
+      exact ⟨k', List.mem_cons_of_mem _ hk'⟩
+
+theorem extractLoopF_no_panic (encs : List (Bytes × FontEnc)) (hs : ∀ p ∈ encs, SafeFontEnc p.2) (site : String) :
+    ∀ (ops : List (Bytes × List Obj)) (st : XStateF), (∀ e, st.cur = some e → SafeFontEnc e) →
+      extractLoopF encs ops st ≠ .panic site
+  | [], st, _ => by simp [extractLoopF]
+  | (op, operands) :: rest, st, hc => by
+    unfold extractLoopF
+    split
+    · split
+      · simp
+      · split
+        · simp
+        · rename_i n hn
+          apply extractLoopF_no_panic encs hs site rest
+          intro e he
+          obtain ⟨k, hk⟩ := lookupFontEnc_mem encs n e he
+          exact hs (k, e) hk
+    · split
+      · split
+        · exact extractLoopF_no_panic encs hs site rest st hc
+        · rename_i e he
+          have h1 := collectListF_no_panic e (hc e he) site operands st.text
+          cases hcl : collectListF e st.text operands with
+          | ok t => exact extractLoopF_no_panic encs hs site rest _ (fun e' he' => hc e' he')
+          | err x => simp
+          | panic x => simp; intro hx; subst hx; exact h1 hcl
+      · split
+        · exact extractLoopF_no_panic encs hs site rest _ (fun e' he' => hc e' he')
+        · exact extractLoopF_no_panic encs hs site rest st hc
+
 theorem extractPage_no_panic (ext : Ext) (os : Objects) (pid : ObjId) (s : String) : extractPage ext os pid ≠ .panic s := by
   unfold extractPage
   split
   · simp
   · rename_i s' h; exact absurd h (getPageFonts_total _ _ _)
-  · obtain ⟨b, hb⟩ := getPageContent_filters_ok ext os pid
-    rw [hb]
-    simp only []
+  · rename_i fonts _
+    obtain ⟨f1, f2⟩ := fontEncs_safe ext os fonts
     split
-    · simp
-    · rename_i s' h
-      exact absurd h ((noPanic_iff _).mp (decodeContent_never_panics b) s')
-    · exact extract_never_panics _ _ _
+    · rename_i s' h; exact absurd h (f1 s')
+    · rename_i encs hne
+      obtain ⟨b, hb⟩ := getPageContent_filters_ok ext os pid
+      rw [hb]
+      simp only []
+      split
+      · simp
+      · rename_i s' h
+        exact absurd h ((noPanic_iff _).mp (decodeContent_never_panics b) s')
+      · split
+        · rename_i es hes
+          exact extractLoopF_no_panic es (f2 es hes) s _ _ (by intro e h; simp at h)
+        · simp
+        · rename_i s' h; exact absurd h (f1 s')
 
 theorem joinPages_no_panic : ∀ (rs : List (Outcome UStr)), (∀ r ∈ rs, ∀ s, r ≠ .panic s) → ∀ s, joinPages rs ≠ .panic s := by
   intro rs
@@ -799,7 +991,7 @@ theorem joinPages_no_panic : ∀ (rs : List (Outcome UStr)), (∀ r ∈ rs, ∀ 
     · simp
     · simp
 
-/-- **`extract_text` never panics** (ToUnicode CMaps excluded — C15): for every document, every list
+/-- **`extract_text` never panics** (ToUnicode CMaps included): for every document, every list
 of page numbers and every behaviour of flate2 / weezl, composing page lookup (C12/C13), fonts (C13),
 the filter chain (C09), the content parser (C04/C14) and the text loop with the one-byte tables
 (C16). Memory bound as for `get_pages`. -/
